@@ -20,6 +20,7 @@ pub struct FnDef {
 pub struct StructDef {
     pub name: String,
     pub fields: Vec<(String, syn::Type)>,
+    pub derives: Vec<String>,
 }
 
 #[derive(Debug, Clone)]
@@ -129,7 +130,9 @@ impl Index {
                         let n = f.ident.as_ref().map(|x| x.to_string()).unwrap_or_else(|| i.to_string());
                         fields.push((n, f.ty.clone()));
                     }
-                    self.structs.insert(s.ident.to_string(), StructDef { name: s.ident.to_string(), fields });
+                    let mut derives = Vec::new();
+                    for a in &s.attrs { if a.path().is_ident("derive") { let _ = a.parse_nested_meta(|m| { if let Some(i) = m.path.segments.last() { derives.push(i.ident.to_string()); } Ok(()) }); } }
+                    self.structs.insert(s.ident.to_string(), StructDef { name: s.ident.to_string(), fields, derives });
                 }
                 syn::Item::Enum(e) => {
                     self.enums.insert(
